@@ -17,7 +17,7 @@ KEYS = ["a", "b", "c", "details", "info"]
 IMPORTS = "From AV Require Import Model.SessionSub Model.SessionSubRun."
 FLAVOURS = ("tx", "aio")
 EXN = {"ProtocolError": "EProtocolError", "TransportLost": "ETransportLost", "AssertionError": "EAssertion",
-       "Exception": "EException", "TypeError": "ETypeError", "Closed": "EClosed"}
+       "Exception": "EException", "TypeError": "ETypeError", "Closed": "EClosed", "TypeCheck": "ETypeCheck"}
 NEVER = "ORaised (EUser 424242)"      # stands for an observation the model has no constructor for: never equal
 
 
@@ -38,11 +38,23 @@ def optb(v):
     return "None" if v is None else f"(Some {'true' if v else 'false'})"
 
 
+def normH(H):
+    sg = H.get("sig")
+    if sg is None: sg = {"fixed": 0, "va": True, "kwo": [], "vk": True}
+    elif isinstance(sg, list): sg = {"fixed": 0, "va": True, "kwo": list(sg), "vk": False}
+    return {"det": H.get("det"), "sig": sg, "check": bool(H.get("check")), "ann": H.get("ann"), "beh": H["beh"]}
+
+
 def coq_handler(H, obj):
-    sig = "SigAny" if H["sig"] is None else f"(SigOnly {olist(str(k) for k in H['sig'])})"
+    H = normH(H)
+    sg = H["sig"]
+    sig = (f"(Sig {sg['fixed']} {'true' if sg['va'] else 'false'} {olist(str(k) for k in sg['kwo'])} "
+           f"{'true' if sg['vk'] else 'false'})")
+    ann = {None: "None", "int": "(Some TInt)", "str": "(Some TStr)"}[H["ann"]]
+    chk = "true" if H["check"] else "false"
     b = H["beh"]
     beh = "BReturn" if b[0] == "ret" else f"(BRaise {b[1]})" if b[0] == "raise" else f"(BUnsub {olist(str(t) for t in b[1])})"
-    return f"(H {'true' if obj else 'false'} {optn(H['det'])} {sig} {beh})"
+    return f"(H {'true' if obj else 'false'} {optn(H['det'])} {sig} {chk} {ann} {beh})"
 
 
 def coq_kwargs_pub(kw):
@@ -174,19 +186,26 @@ class GenSim:
 
 def gen_handler(rng, sim, self_label):
     det = rng.choices([None, 3, 4, 0], [50, 32, 10, 8])[0]
-    if rng.random() < 0.72:
-        sig = None
+    r = rng.random()
+    if r < 0.5:
+        sig = {"fixed": 0, "va": True, "kwo": [], "vk": True}                     # *args, **kw
     else:
-        ks = set(k for k in (0, 1, 2) if rng.random() < 0.6)
-        if det is not None and rng.random() < 0.85: ks.add(det)
-        sig = sorted(ks)
+        kwo = sorted(k for k in (0, 1, 2) if rng.random() < 0.5)
+        vk = rng.random() < 0.45
+        if det is not None and not vk and rng.random() < 0.85: kwo = sorted(set(kwo) | {det})
+        sig = {"fixed": rng.choice((0, 0, 1, 1, 2)), "va": rng.random() < 0.6, "kwo": kwo, "vk": vk}
+        # kinds: fixed only / *args / **kwargs / both / keyword-only
+    check = rng.random() < 0.35
+    ann = None
+    if sig["fixed"] >= 1:
+        ann = rng.choices([None, "int", "str"], [30, 55, 15])[0]
     r = rng.random()
     if r < 0.62: beh = ["ret"]
     elif r < 0.78: beh = ["raise", rng.randrange(1, 4)]
     else:
         pool = [self_label] * 3 + list(sim.objs) + list(sim.pend)
         beh = ["unsub", sorted(set(rng.choice(pool) for _ in range(rng.choice((1, 1, 2)))))]
-    return {"det": det, "sig": sig, "beh": beh}
+    return {"det": det, "sig": sig, "check": check, "ann": ann, "beh": beh}
 
 
 def gen_event(rng, sim):
@@ -199,7 +218,7 @@ def gen_event(rng, sim):
     elif gone and r < 0.95: sub = rng.choice(gone)
     else: sub = rng.choice(live + racing + gone + [999, 1, 75])
     shape = rng.choice(("none", "args", "kwargs", "both", "both"))
-    args = [rng.randrange(-3, 9) for _ in range(rng.randrange(1, 3))] if shape in ("args", "both") else []
+    args = [rng.randrange(-3, 9) for _ in range(rng.choice((1, 1, 2, 2, 3)))] if shape in ("args", "both") else []
     kw = {}
     if shape in ("kwargs", "both"):
         for k in rng.sample((0, 1, 2, 3), rng.choice((1, 1, 2))):
@@ -271,8 +290,13 @@ def expected_kwargs(H, label, sid, topic, ev):
     return kw
 
 
-def sig_accepts(H, kw):
-    return H["sig"] is None or all(KEYS.index(k) in H["sig"] for k in kw)
+def sig_accepts(H, nargs, kw):
+    """would the handler's own signature / type hints take the call the property demands? (its business if not)"""
+    sg = H["sig"]
+    if nargs < sg["fixed"] or (nargs > sg["fixed"] and not sg["va"]): return False
+    if not sg["vk"] and any(KEYS.index(k) not in sg["kwo"] for k in kw): return False
+    if H["check"] and sg["fixed"] >= 1 and H["ann"] == "str": return False       # published values are ints
+    return True
 
 
 class Oracle:
@@ -280,7 +304,8 @@ class Oracle:
     UNSUBSCRIBE messages the implementation sent (a handler is named by the id of the request that registered it)."""
     P = "session.onMessage/Event/"
 
-    def __init__(self):
+    def __init__(self, fw="tx"):
+        self.fw = fw
         self.pend = {}        # SUBSCRIBE request id -> (H, topic, withobj)
         self.upend = {}       # UNSUBSCRIBE request id -> sid
         self.info = {}        # label -> dict(H, topic, sid, obj)   once SUBSCRIBED was processed (the app holds the object)
@@ -309,7 +334,7 @@ class Oracle:
         expect_unsub = []
         where = f"op {i} {k}"
         if k in ("sub", "subobj") and not self.lost:
-            specs = [(op[1], op[2], False)] if k == "sub" else [(H, t, True) for H, t in op[1]]
+            specs = [(normH(op[1]), op[2], False)] if k == "sub" else [(normH(H), t, True) for H, t in op[1]]
             if len(sent_sub) != len(specs):
                 self.flag("session.subscribe/SUBSCRIBE-count", f"{where}: {len(sent_sub)} SUBSCRIBE sent for {len(specs)} handlers")
             for o, sp in zip(sent_sub, specs):
@@ -385,11 +410,26 @@ class Oracle:
         order = [o[1] for o in invokes]
         typeerrs = {o[1] for o in outs if o[0] == "usererror" and o[2][0] == "TypeError"}
         earlier_details, earlier_unsub = False, False
+        earlier_detail_keys = set()
         removed_midway = set()
-        seen_positions = []
+        seen_positions, seen_later = [], []
+        later = []            # asyncio: check_types handlers are coroutines; the loop only creates their Task
+
+        def body_effects(H):
+            nonlocal earlier_unsub
+            if H["beh"][0] == "unsub":
+                for t in H["beh"][1]:
+                    if (t in self.info and self.info[t]["held"] and t not in self.dead
+                            and t in self.att.get(self.info[t]["sid"], [])):
+                        self.detach(t, expect_unsub)
+                        earlier_unsub = True
+                        if self.info[t]["sid"] == sid: removed_midway.add(t)
+
         for lab in arrival:
             inf = self.info[lab]
             H = inf["H"]
+            K = self.P + ("check_types/" if H["check"] else "")
+            is_later = self.fw == "aio" and H["check"]
             exp_kw = expected_kwargs(H, lab, sid, inf["topic"], ev)
             calls = got.get(lab, [])
             if lab in removed_midway:
@@ -401,41 +441,41 @@ class Oracle:
             if len(calls) > 1:
                 self.flag(self.P + "duplicate-call", f"{where}: handler {lab} invoked {len(calls)} times")
             if not calls:
-                if not sig_accepts(H, exp_kw):
-                    pass          # the handler's own signature rejects what was published: its TypeError, not the library's
-                elif lab in typeerrs and earlier_details and ev["kwargs"]:
+                if not sig_accepts(H, len(ev["args"]), exp_kw):
+                    pass          # the handler's own signature / hints reject what was published: its error, not the library's
+                elif lab in typeerrs and earlier_details and ev["kwargs"] and not H["check"]:
                     self.flag(self.P + "shared-kwargs", f"{where}: handler {lab} not invoked: it was passed another handler's "
                               f"details keyword (TypeError swallowed)")
-                elif earlier_unsub:
+                elif earlier_unsub and not H["check"]:
                     self.flag(self.P + "unsubscribe-during-dispatch-skips-handler", f"{where}: handler {lab} was attached when "
                               f"the event arrived but was skipped after an earlier handler unsubscribed during the dispatch")
                 else:
-                    self.flag(self.P + "missing-call", f"{where}: attached handler {lab} not invoked")
+                    self.flag(K + "missing-call", f"{where}: attached handler {lab} not invoked although its signature "
+                              f"accepts the published arguments")
             else:
                 c = calls[0]
-                seen_positions.append(order.index(lab))
-                if c[2] != inf["obj"]: self.flag(self.P + "wrong-self", f"{where}: handler {lab} obj argument {c[2]}")
-                if c[3] != list(ev["args"]): self.flag(self.P + "wrong-args", f"{where}: handler {lab} got args {c[3]}, published {ev['args']}")
+                (seen_later if is_later else seen_positions).append(order.index(lab))
+                if c[2] != inf["obj"]: self.flag(K + "wrong-self", f"{where}: handler {lab} obj argument {c[2]}")
+                if c[3] != list(ev["args"]): self.flag(K + "wrong-args", f"{where}: handler {lab} got args {c[3]}, published {ev['args']}")
                 if c[4] != exp_kw:
                     extra = set(c[4]) - set(exp_kw)
-                    if extra and earlier_details and ev["kwargs"]:
+                    if extra and extra <= earlier_detail_keys and ev["kwargs"]:
                         self.flag(self.P + "shared-kwargs", f"{where}: handler {lab} received keyword(s) {sorted(extra)} "
                                   f"belonging to an earlier handler's details_arg")
                     elif (earlier_details and ev["kwargs"]
-                          and any(isinstance(v, dict) and v["$det"]["owner"] != lab for v in c[4].values() if isinstance(v, dict))):
+                          and any(v["$det"]["owner"] != lab for v in c[4].values() if isinstance(v, dict) and "$det" in v)):
                         self.flag(self.P + "shared-kwargs", f"{where}: handler {lab} received another handler's EventDetails")
                     else:
-                        self.flag(self.P + "wrong-kwargs", f"{where}: handler {lab} got kwargs {c[4]}, expected {exp_kw}")
+                        self.flag(K + "wrong-kwargs", f"{where}: handler {lab} got kwargs {c[4]}, expected {exp_kw}")
                 # body effects (what the handler does is part of the history, not of the library)
-                if H["beh"][0] == "unsub":
-                    for t in H["beh"][1]:
-                        if (t in self.info and self.info[t]["held"] and t not in self.dead
-                                and t in self.att.get(self.info[t]["sid"], [])):
-                            self.detach(t, expect_unsub)
-                            earlier_unsub = True
-                            if self.info[t]["sid"] == sid: removed_midway.add(t)
-            if H["det"] is not None: earlier_details = True
-        if seen_positions != sorted(seen_positions):
+                if is_later: later.append(H)
+                else: body_effects(H)
+            if H["det"] is not None:
+                earlier_details = True
+                earlier_detail_keys.add(KEYS[H["det"]])
+        for H in later:
+            body_effects(H)
+        if seen_positions != sorted(seen_positions) or seen_later != sorted(seen_later):
             self.flag(self.P + "wrong-order", f"{where}: invocation order {order}, subscription order {arrival}")
         for lab in order:
             if lab not in arrival:
@@ -443,8 +483,8 @@ class Oracle:
                 self.flag(self.P + key, f"{where}: handler {lab} invoked but not attached to {sid} (attached: {arrival})")
 
     @classmethod
-    def check(cls, ops, per_op):
-        o = cls()
+    def check(cls, ops, per_op, fw="tx"):
+        o = cls(fw)
         for i, (op, outs) in enumerate(zip(ops, per_op)):
             o.step(i, op, outs)
         return o.bad
@@ -474,7 +514,7 @@ def shrink(ck, ops, fw, key):
         cands = [cur[:i] + cur[i + 1:] for i in range(len(cur))]
         if not cands: break
         r = ck.run_impl("wamp_events.py", {"fw": fw, "cases": cands}, timeout=600)["results"]
-        nxt = next((c for c, out in zip(cands, r) if any(k == key for k, _ in Oracle.check(c, out))), None)
+        nxt = next((c for c, out in zip(cands, r) if any(k == key for k, _ in Oracle.check(c, out, fw))), None)
         if nxt is None: break
         cur = nxt
     return cur
@@ -503,10 +543,15 @@ def run(ck):
         "Model/Session*.v of other properties",
         "oracle assumptions: a handler is identified by the request id of the SUBSCRIBE the implementation sent for it; "
         "a handler unsubscribed by an earlier handler of the same dispatch must not receive that event any more "
-        "(never-after-unsubscribe takes precedence over attached-at-arrival)",
+        "(never-after-unsubscribe takes precedence over attached-at-arrival); on asyncio a check_types handler is a "
+        "coroutine: 'invoked' is the call made by the dispatch loop at the handler's turn (the Task), its body starts in the "
+        "following loop turn - after the plain handlers, in subscription order among coroutine handlers, and even if a later "
+        "handler of the same event unsubscribed it meanwhile",
     ]
     ck.rule.append("random interleavings (seeded) over subscribe(callable)/subscribe(decorated object)/unsubscribe/"
-                   "SUBSCRIBED/UNSUBSCRIBED/ERROR/revocation/EVENT(all payload shapes, details)/transport loss, steered to keep "
+                   "SUBSCRIBED/UNSUBSCRIBED/ERROR/revocation/EVENT(all payload shapes, details)/transport loss; handlers are real "
+                   "functions of every signature kind (fixed / *args / **kwargs / both / keyword-only, int or str type hints) "
+                   "subscribed with check_types on or off; steered to keep "
                    "several handlers per subscription id and pending requests alive; each history runs on the real session "
                    "under Twisted and asyncio and in the Gallina model. non-trivial = at least one EVENT reached a "
                    "subscription with >= 1 handler; distinct = distinct (framework, history)")
@@ -538,7 +583,7 @@ def run(ck):
                 if op[0] == "event" and any(x[0] in ("invoke", "usererror") for x in o): nontriv = True
             if nontriv:
                 ck.note_cases(0, [json.dumps([fw, ops], sort_keys=True)])
-            for key, text in Oracle.check(ops, outs):
+            for key, text in Oracle.check(ops, outs, fw):
                 ck.bump("oracle:" + key)
                 if key not in oracle_hits or len(ops) < len(oracle_hits[key][1]):
                     oracle_hits[key] = (fw, ops, text)
@@ -559,7 +604,7 @@ def run(ck):
         rr = run_histories(ck, [small])
         both = []
         for f in FLAVOURS:
-            hit = [t for k, t in Oracle.check(small, rr[f][0]) if k == key]
+            hit = [t for k, t in Oracle.check(small, rr[f][0], f) if k == key]
             if hit:
                 both.append(f); text = hit[0]
         ck.violation(key, f"{text} [frameworks: {','.join(both) or fw}]",
@@ -570,7 +615,7 @@ def run(ck):
     for i in bad:
         fw, hi = index[i]
         ops = hists[hi]
-        if Oracle.check(ops, res[fw][hi]):
+        if Oracle.check(ops, res[fw][hi], fw):
             continue                     # already reported with a concrete input above
         if reported >= 3: break
         reported += 1
@@ -584,7 +629,7 @@ def run(ck):
         rr = run_histories(ck, near)
         for f in FLAVOURS:
             for c, o in zip(near, rr[f]):
-                b = Oracle.check(c, o)
+                b = Oracle.check(c, o, f)
                 if b and not found: found = (f, c, b[0])
         if found:
             ck.violation(found[2][0], found[2][1], {"fw": found[0], "ops": found[1]}, found_input=True)
@@ -609,7 +654,7 @@ def replay(path):
         outs = ck.run_impl("wamp_events.py", {"fw": fw, "cases": [ops]})["results"][0]
         print(f"--- implementation ({fw})")
         for i, o in enumerate(outs): print(f"  {i}: {json.dumps(o)}")
-        bad = Oracle.check(ops, outs)
+        bad = Oracle.check(ops, outs, fw)
         for k, t in bad: print(f"  ORACLE {k}: {t}")
         agree = ck.coq_cases("replay", IMPORTS, "sub_case_ok", [coq_case(fw, ops, outs)], ty="sub_case") == []
         print(f"  Gallina model agrees with implementation: {agree}")
